@@ -110,6 +110,54 @@ def gen_pair(rng, seed):
     return base, with_e, nsync
 
 
+def gen_eph_safety(rng, seed):
+    """Unpaired runs with RANDOM link delays for clauses (c) and (d): multi-topic ephemeral sources, also at a rejoin next
+    to a synchronized source, so that the parts of one ephemeral set arrive spread out in time."""
+    N = rng.randint(12, 24)
+    p = Pipe()
+    p.source('src', {'nframes': N, 'proc_ms': [rng.choice([0, 20, 60])], 'topics': ['main', 'aux'] + (['x'] if rng.random() < 0.4 else []), 'content': rng.choice([['data'], ['data', 'raw_bgr']]), 'end': 'idle'})
+    p.relay('a', [{'pub': 'src', 'form': 'main'}], {'proc_ms': [rng.choice([0, 30])], 'rename': {'main': 'main_a'}})
+    lvl = rng.choice([1, 1, 2])
+    p.relay('e', [{'pub': 'src', 'form': rng.choice(['all', [('main', 'main'), ('aux', 'aux')]]), 'eph': lvl}], {'proc_ms': [rng.choice([0, 100, 400])], 'rename': {'main': 'main_e', 'aux': 'aux_e', 'x': 'x_e'}})
+    p.sink('k0', [{'pub': 'a', 'form': 'all'}, {'pub': 'e', 'form': rng.choice(['all', [('main_e', 'main_e'), ('aux_e', 'aux_e')]]), 'eph': 1}], {'proc_ms': [rng.choice([0, 50])]})
+    p.sink('e9', [{'pub': 'src', 'form': rng.choice(['all', 'star']), 'eph': rng.choice([1, 2])}], {'proc_ms': [rng.choice([0, 700])]})
+    p.by_id['src']['config']['outputs_required'] = 'a'
+    p.by_id['a']['config']['outputs_required'] = 'k0'
+    for n in p.nodes:
+        n['start_ms'] = rng.choice([0, 0, rng.randint(0, 400)])
+    link = {'max_delay_ms': rng.choice([10, 50, 95]), 'conn_ms': [0, 30], 'sub_ms': [0, 20]}
+    scn = scenarios.finish(p, seed, link, 60000, family='eph-safety', stop_counts={'k0': N}, grace_ms=500, stop_when_all_done=False)
+    if rng.random() < 0.4:
+        scn['loss'] = {'p': rng.choice([0.1, 0.3]), 'links': [['src', 'e'], ['src', 'e9'], ['e', 'k0']]}
+    return scn
+
+
+def judge_safety(w, scn, res):
+    t1 = scenarios.Topo(scn)
+    bad = []
+    dbl = {e['cons'] for e in t1.edges if e['eph'] == 2}
+    for e in w.sim.log:
+        if e.get('ev') == 'push' and e['node'] in dbl:
+            # a node may have OTHER sources that are not doubly ephemeral; judge by the address it pushes to
+            pubs2 = {ed['pub'] for ed in t1.edges if ed['cons'] == e['node'] and ed['eph'] == 2}
+            if any(e.get('addr') == f'ipc://{pb}' for pb in pubs2) and json.loads(e['env']).get('mid', 0) > -2:
+                bad.append(('doubly-ephemeral-requested', f'{e["node"]} sent a request to a ?? source'))
+                break
+    r2 = common.Result()
+    for mech, msg in monitors.check_sets(w, t1, r2):
+        if mech in ('partial-ephemeral-set', 'mixed-ids-within-source', 'partial-set', 'mixed-ids'):
+            bad.append((mech, msg))
+    for mech, msg in monitors.check_order(w, t1, r2):
+        if mech in ('ephemeral-reorder', 'content-altered', 'duplicate', 'reorder'):
+            bad.append((mech, msg))
+    res.count('safety_sets_checked', r2.counters.get('sets_checked', 0))
+    n_eph_multi = sum(1 for ev in w.clog if ev['ev'] == 'process' and ev['node'] == 'k0' and ev['ins'] and sum(1 for t in ev['ins'] if t.endswith('_e')) >= 2)
+    res.count('rejoin_sets_with_multi_topic_ephemeral_part', n_eph_multi)
+    if n_eph_multi:
+        res.nontrivial('safety|' + w.schedule_signature())
+    return bad
+
+
 def sync_history(w, topo, node):
     eph_dst = set()
     for e in topo.inputs_of(node):
@@ -230,6 +278,19 @@ def run_shard(ctx):
             import traceback
             res.inconclusive.append(f'scenario crashed the harness: {type(e).__name__}: {e} {traceback.format_exc()[-500:]}')
             continue
+        if k % 2 == 0:
+            scn = gen_eph_safety(rng, rng.randrange(1 << 30))
+            try:
+                w = world.run_scenario(scn)
+                res.evaluations += 1
+                seen = set()
+                for mech, msg in judge_safety(w, scn, res):
+                    if mech not in seen:
+                        seen.add(mech)
+                        res.violation(mech, f'{msg}; family=eph-safety seed={scn["seed"]}', {'safety': scn})
+            except Exception as e:
+                import traceback
+                res.inconclusive.append(f'scenario crashed the harness: {type(e).__name__}: {e} {traceback.format_exc()[-400:]}')
         if k == 0 and ctx.shard == 0:
             res.sample({'sync_consumers': nsync, 'ephemerals': [(n_['id'], n_['config']['sources'], n_['beh']) for n_ in s1['nodes'] if n_['id'].startswith('e')],
                         'faults': s1.get('faults'), 'k0_inputs_without': sync_history(w0, scenarios.Topo(s0), 'k0')[:4], 'k0_inputs_with': sync_history(w1, scenarios.Topo(s1), 'k0')[:4]})
@@ -250,6 +311,14 @@ def conclusive(agg, tier):
 def replay(spec):
     common.quiet_logging()
     res = common.Result()
+    if 'safety' in spec:
+        w = world.run_scenario(spec['safety'])
+        bad = judge_safety(w, spec['safety'], res)
+        for e in w.process_log('k0'):
+            print('  %9.1f ms k0' % (e['t'] / 1e6), {t: (v.get('o'), v.get('seq')) for t, v in e['ins'].items()})
+        for mech, msg in bad[:10]:
+            print('VIOLATES:', mech, '-', msg)
+        return 1 if bad else 0
     w0, w1, bad = run_pair(spec['base'], spec['with'], spec['nsync'], res)
     for mech, msg in bad[:10]:
         print('VIOLATES:', mech, '-', msg)
